@@ -773,7 +773,7 @@ func (e *Engine) boundsCheck(idx *smt.Term, n int, what string) int {
 
 func (e *Engine) index(fr *Frame, in *ssa.Index) {
 	x := e.val(fr, in.X)
-	idx := e.term(fr, in.Index)
+	idx := widen64(e.term(fr, in.Index), in.Index.Type())
 	switch c := x.(type) {
 	case *ArrayV:
 		if !idx.IsConst() && len(c.E) > 0 {
@@ -811,7 +811,7 @@ func (e *Engine) strIndex(c Str, idx *smt.Term) *smt.Term {
 
 func (e *Engine) indexAddr(fr *Frame, in *ssa.IndexAddr) {
 	x := e.val(fr, in.X)
-	idx := e.term(fr, in.Index)
+	idx := widen64(e.term(fr, in.Index), in.Index.Type())
 	switch c := x.(type) {
 	case Slice:
 		i := e.boundsCheck(idx, c.Len, "slice")
@@ -830,8 +830,8 @@ func (e *Engine) indexAddr(fr *Frame, in *ssa.IndexAddr) {
 }
 
 func (e *Engine) makeSlice(fr *Frame, in *ssa.MakeSlice) {
-	lt := e.term(fr, in.Len)
-	ct := e.term(fr, in.Cap)
+	lt := widen64(e.term(fr, in.Len), in.Len.Type())
+	ct := widen64(e.term(fr, in.Cap), in.Cap.Type())
 	max := smt.BV(uint64(e.Cfg.MaxAlloc), lt.W)
 	if !lt.IsConst() {
 		e.panicIf(smt.Cmp(smt.OpSlt, lt, smt.BV(0, lt.W)), "makeslice", "makeslice: len out of range")
@@ -857,6 +857,16 @@ func (e *Engine) makeSlice(fr *Frame, in *ssa.MakeSlice) {
 	e.set(fr, in, Slice{Arr: Ptr{Obj: id}, Off: 0, Len: n, Cap: c})
 }
 
+func widen64(t *smt.Term, ty types.Type) *smt.Term {
+	if t.W >= 64 {
+		return t
+	}
+	if isSigned(ty) {
+		return smt.SExt(t, 64)
+	}
+	return smt.ZExt(t, 64)
+}
+
 func (e *Engine) slice(fr *Frame, in *ssa.Slice) {
 	x := e.val(fr, in.X)
 	get := func(v ssa.Value, def int) *smt.Term {
@@ -879,6 +889,24 @@ func (e *Engine) slice(fr *Frame, in *ssa.Slice) {
 		lo, hi := get(in.Low, 0), get(in.High, len(s.B))
 		bad := smt.BOr(smt.Cmp(smt.OpUlt, c64(len(s.B)), hi), smt.Cmp(smt.OpUlt, hi, lo))
 		e.panicIf(bad, "slice", fmt.Sprintf("slice bounds out of range with length %d", len(s.B)))
+		if d := smt.Sub(hi, lo); !lo.IsConst() && d.IsConst() && d.Const() <= 16 && len(s.B) <= 512 {
+			// fixed-width window at a symbolic offset: ite chains instead of one fork per offset
+			w := int(d.Const())
+			out := make([]*smt.Term, w)
+			for k := 0; k < w; k++ {
+				var r *smt.Term
+				for off := len(s.B) - w; off >= 0; off-- {
+					if r == nil {
+						r = s.B[off+k]
+					} else {
+						r = smt.Ite(smt.Eq(lo, c64(off)), s.B[off+k], r)
+					}
+				}
+				out[k] = r
+			}
+			e.set(fr, in, Str{out})
+			return
+		}
 		h := int(e.concInt(hi, "slice high"))
 		l := int(e.concInt(lo, "slice low"))
 		e.set(fr, in, Str{s.B[l:h:h]})
@@ -958,7 +986,7 @@ func (e *Engine) lookup(fr *Frame, in *ssa.Lookup) {
 	x := e.val(fr, in.X)
 	switch c := x.(type) {
 	case Str:
-		e.set(fr, in, e.strIndex(c, e.term(fr, in.Index)))
+		e.set(fr, in, e.strIndex(c, widen64(e.term(fr, in.Index), in.Index.Type())))
 	case MapRef:
 		vt := in.X.Type().Underlying().(*types.Map).Elem()
 		var res Value
